@@ -6,6 +6,7 @@ every naming of the symbols and every elimination order.
 import Pfl.Model.ToRegex
 import Pfl.Spec.FA
 import Pfl.Spec.Regex
+import Pfl.Proofs.ToRegexLemmas
 namespace Pfl
 namespace ENFA
 variable {σ : Type} [DecidableEq σ]
@@ -13,7 +14,7 @@ variable {σ : Type} [DecidableEq σ]
 theorem toRegexRx_lang (A : ENFA σ) (hA : A.WF) (symName : Nat → String)
     (order : σ → List (Option σ)) (u : List String) :
     Rx.Denote (A.toRegexRx symName order) u ↔ ∃ w, u = w.map symName ∧ A.Lang w := by
-  sorry
+  exact ToRegex.Lem.toRegexRx_lang A hA symName order u
 
 end ENFA
 end Pfl
